@@ -53,7 +53,7 @@ prop('C13',
 
 prop('C14',
      quick=dict(sweep=True, pbt=(40000, 600, 8), fuzz=(100000, 600, 4)),
-     thorough=dict(sweep=True, pbt=(1600000, 700, 10), fuzz=(1200000, 700, 5)),
+     thorough=dict(sweep=True, pbt=(1600000, 700, 10), fuzz=(500000, 700, 5)),
      floor=dict(quick=40000, thorough=500000), alloc_cap_mb=16,
      rule=("Six generated families chosen by the tape: (a) MemoryWriter over a 0..64 byte buffer between two 32-byte canary zones with 1..40 "
            "operations {Write(k), typed writes, Seek, SeekForward, SeekBackward, SeekBeginning/End} and boundary arguments "
